@@ -32,6 +32,9 @@ CHECKS = {
 
  'C13': ('Q3 two-way embeddings (explicit linear maps) between the option problem and the real fine problem plus the defining equalities; Q1 constant reported rate', '6 C13',
          'For contracts (one/two variables), transports, storages, multi-commodity and take contracts with a coarser frequency (aligned, unaligned and horizon-straddling windows) or a periodicity (with/without duration): optimum and feasible set equal those of the fine problem with the equalities added, for all parameter values and prices (wacc = 0); reported rates are constant per coarse interval / identical across periods. One open known finding (periodic Plant).'),
+
+ 'C15': ('Q2 term identities between the rebuilt problem and fresh problems (pinned bounds on exactly the window variables, everything else unchanged), Q1 consequences (x_prev feasible, window pinned)', '6 C15',
+         'For masks and dates (on and between grid points) and portfolios with several mapping rows per variable (transport, multi-commodity, CHP fuel, coarse, order book, periodic): for ALL previous solutions x_prev, parameter values and new prices the rebuilt problem is the fresh problem with exactly the window variables pinned to x_prev.'),
 }
 NA = {}
 props = [json.loads(l) for l in open(os.path.join(ROOT, 'properties.jsonl'))]
